@@ -433,7 +433,7 @@ pub fn run_case(p: &Program, rules: &[FlatRule], exe: &std::path::Path, h: &[Op]
 pub fn run_c07(tier: &str, seed: u64) -> campaign::CampaignResult {
     let start = Instant::now();
     let thorough = tier == "thorough";
-    let (np, nh) = if thorough { (1000, 300) } else { (64, 100) };
+    let (np, nh) = if thorough { (600, 200) } else { (64, 100) };
     let np = std::env::var("EQV_NPROG").ok().and_then(|v| v.parse().ok()).unwrap_or(np);
     let nh = std::env::var("EQV_NHIST").ok().and_then(|v| v.parse().ok()).unwrap_or(nh);
     let known = KnownFindings::load();
